@@ -346,7 +346,48 @@ def refs_in(t, acc=None):
 def refactor(rng, S):
     """returns (kind, cddl text of the refactored schema) or None"""
     rules = list(S.rules)
-    kind = rng.choice(["name-intro", "inline", "parens", "rename", "add-rules", "reorder", "incr-choice", "socket", "generic", "generic-ctl", "generic-group"])
+    kind = rng.choice(["name-intro", "inline", "parens", "rename", "add-rules", "reorder", "incr-choice", "socket", "generic", "generic-ctl", "generic-group",
+                       "incr-maps", "generic-map-group"])
+    PRIMS = ["int", "tstr", "bool", "uint", "nil", "float"]
+    if kind == "incr-maps":
+        # a choice of MAPS that share a key, spelled inline / as a base rule plus '/=' increments / through a $socket (seeded C08-3:
+        # what a failed earlier arm recorded must not be visible to a later arm)
+        n = rng.choice([2, 2, 3])
+        shared = rng.choice(["x", "id"])
+        own = rng.sample(["y", "z", "w", "v"], n)
+        arms = []
+        for i in range(n):
+            ents = [("ent", ("lit", ("txt", shared)), True, ("ref", rng.choice(PRIMS[:3])))]
+            e2 = ("ent", ("lit", ("txt", own[i])), True, ("ref", rng.choice(PRIMS)))
+            ents.append(("occ", 0, 1, e2) if rng.random() < 0.2 else e2)
+            if rng.random() < 0.3:
+                ents.reverse()
+            arms.append(("map", ("seq", ents[0], ents[1])))
+        body = arms[-1]
+        for a in reversed(arms[:-1]):
+            body = ("or", a, body)
+        root = rng.choice([("ref", "item"), ("arr", ("occ", 0, None, ("ent", None, False, ("ref", "item")))),
+                           ("map", ("ent", ("lit", ("txt", "k")), True, ("ref", "item")))])
+        S2 = Schema([("r0", "type", root), ("item", "type", body)])
+        form = rng.choice(["incr", "socket"])
+        if form == "incr":
+            lines = ["r0 = %s" % ty_cddl(root), "item = %s" % ty_cddl(arms[0])] + ["item /= %s" % ty_cddl(a) for a in arms[1:]]
+        else:
+            lines = ["r0 = %s" % ty_cddl(root).replace("item", "$item")] + ["$item /= %s" % ty_cddl(a) for a in arms]
+        return kind, (S2.cddl(), "\n".join(lines) + "\n", S2)
+    if kind == "generic-map-group":
+        # the same generic GROUP rule instantiated several times in ONE map vs the hand-substituted members (seeded C08-4)
+        n = rng.choice([2, 3, 3, 4])
+        keys = rng.sample(["a", "b", "c", "d", "e"], n)
+        vals = [rng.choice(PRIMS) for _ in range(n)]
+        ents = [("ent", ("lit", ("txt", k)), False, ("ref", v)) for k, v in zip(keys, vals)]
+        g = ents[-1]
+        for it in reversed(ents[:-1]):
+            g = ("seq", it, g)
+        S2 = Schema([("r0", "type", ("map", g))])
+        t1 = "r0 = {%s}\n" % ", ".join("(\"%s\" => %s)" % (k, v) for k, v in zip(keys, vals))
+        t2 = "r0 = {%s}\nkv<K, V> = (K => V)\n" % ", ".join("kv<\"%s\", %s>" % (k, v) for k, v in zip(keys, vals))
+        return kind, (t1, t2, S2)
     if kind == "generic-group":
         # a generic GROUP rule instantiated several times with different arguments in one array vs the hand-substituted entries
         names = ["tstr", "int", "bool", "uint", "nil"]
@@ -493,6 +534,9 @@ def run_c08(prop, prop_file, tier, seed):
         if kind == "generic-ctl":
             text1, text2, S = text2
             dd = [("int", x) for x in (0, 3, 5, 6, 7, 10, 15, 20, 25, -1)] + [("txt", "a"), ("txt", "ab"), ("flt", 22)]
+        elif kind in ("incr-maps", "generic-map-group"):
+            text1, text2, S = text2
+            dd = docs_for(rng, S, False, 6)
         elif kind == "generic-group":
             text1, text2, S = text2
             dd = docs_for(rng, S, False, 4)
